@@ -350,7 +350,7 @@ Fixpoint check_skip_directive (b : branch) (ds : list directive) : res bool :=
   | d :: r =>
       if is_skip d then
         match find is_if (dargs d) with
-        | None => Err ETypeSystem
+        | None => check_skip_directive b r    (* no `if` argument (redefined directive): skips nothing, `continue` *)
         | Some (_, VVar v _) =>
             match var_value b v with
             | None => Err ETypeSystem
@@ -362,7 +362,7 @@ Fixpoint check_skip_directive (b : branch) (ds : list directive) : res bool :=
         end
       else if is_include d then
         match find is_if (dargs d) with
-        | None => Err ETypeSystem
+        | None => check_skip_directive b r
         | Some (_, VVar v _) =>
             match var_value b v with
             | None => Err ETypeSystem
